@@ -117,6 +117,103 @@ def freshness(node, truthv, func, defs, ctxinfo):
     return "other:op"
 
 
+def complete_pickling_obligations(ctx, rep, rule="R10e"):
+    """Entries go into the cache and come out of it whole: no pickling hook of an entry class leaves a field out by its value."""
+    prog = ctx.prog
+    dirbase = ctx.cls("handlers.dir.DirHandler")
+    ge = ctx.cls("gopherentry.GopherEntry")
+    if ge is None:
+        rep.fail(rule, "GopherEntry", detail="entry class not found")
+    else:
+        for E in prog.subclasses(ge):
+            problems = []
+            hooks = [h for h in ("__getstate__", "__reduce__", "__reduce_ex__", "__getnewargs__", "__getnewargs_ex__", "__setstate__", "__slots__") if h in E.methods or h in E.attrs]
+            gs = E.methods.get("__getstate__")
+            for h in hooks:
+                if h in ("__reduce__", "__reduce_ex__", "__getnewargs__", "__getnewargs_ex__", "__slots__"):
+                    problems.append(f"{h} customises how entries are pickled: cannot show that a cached entry equals the generated one")
+            if gs is not None:
+                dropped = set()
+                ok_shape = False
+                for n in ast.walk(gs.node):
+                    if isinstance(n, (ast.DictComp, ast.ListComp, ast.GeneratorExp)) and any(g.ifs for g in n.generators):
+                        problems.append("__getstate__ filters the fields by value: a field that is set but falsy (size 0, port 0, empty name) is dropped from the cache and "
+                                        "comes back as 'unset', so the cached listing differs from the generated one")
+                    if isinstance(n, ast.Call) and isinstance(n.func, ast.Attribute) and n.func.attr == "pop" and n.args and isinstance(n.args[0], ast.Constant):
+                        dropped.add(n.args[0].value)
+                    if isinstance(n, ast.Delete):
+                        for t in n.targets:
+                            if isinstance(t, ast.Subscript) and isinstance(t.slice, ast.Constant):
+                                dropped.add(t.slice.value)
+                    if isinstance(n, ast.Attribute) and norm(n) == "self.__dict__":
+                        ok_shape = True
+                if not ok_shape:
+                    problems.append("__getstate__ does not start from the full self.__dict__")
+                # dropped fields must be restored on load
+                lc = prog.resolve_method(dirbase, "loadcache")
+                restorers = [E.methods.get("__setstate__"), lc]
+                for k in sorted(dropped):
+                    restored = any(r is not None and any((isinstance(x, ast.Call) and isinstance(x.func, ast.Attribute) and x.func.attr == f"set{k}") or
+                                                         (isinstance(x, ast.Attribute) and isinstance(x.ctx, ast.Store) and x.attr == k) for x in ast.walk(r.node))
+                                   for r in restorers)
+                    if not restored:
+                        problems.append(f"field '{k}' is left out of the cache and never restored after loading")
+            elif "__setstate__" in hooks:
+                problems.append("__setstate__ without __getstate__ rewrites loaded entries")
+            rep.add(rule, f"{E.qualname}: cached by complete pickling", not problems, ctx.where(E.module, E.node), "; ".join(sorted(set(problems))),
+                    key=f"{rule}|{E.qualname}", nontrivial=bool(hooks))
+
+
+
+def alias_obligations(ctx, rep, rule="R10f"):
+    """BaseGopherProtocol.slashnormalize() and BaseHandler.isrequestsecure() evaluated on the alias spellings of a directory."""
+    from ..paths import PathLimit
+
+    prog = ctx.prog
+    pb = ctx.cls("protocols.base.BaseGopherProtocol")
+    hb = ctx.cls("handlers.base.BaseHandler")
+    sn = prog.resolve_method(pb, "slashnormalize") if pb else None
+    sec = prog.resolve_method(hb, "isrequestsecure") if hb else None
+    sn_params = [p_ for p_ in (sn.params if sn else []) if p_ not in ("self", "cls")]
+    if sn is None or sec is None or not sn_params:
+        rep.fail(rule, "slashnormalize / isrequestsecure", detail="normalisation or selector filter not found")
+        return
+
+    def evaluate(func, cls, env=None, facts=None):
+        w = Walker(prog, ctx.resolver, exact_loops=True, unroll=8, assumptions=dict(facts or {}), max_paths=5000,
+                   inline=lambda fn, t, d: d < 3 and (t.bound_cls is not None or fn.cls is None))
+        outs = set()
+        try:
+            for p in w.run(func, cls, env=env or {}, facts=dict(facts or {})):
+                outs.add(p.value.value if p.kind == "return" and p.value is not None and p.value.kind == "const" else ("?", p.kind))
+        except PathLimit:
+            outs = {("?", "limit")}
+        return next(iter(outs)) if len(outs) == 1 else ("?", "paths")
+
+    aliases = ["/dir/.", "/.", "/a/b/.", "dir/.", ".", "/dir/./", "/dir//", "/dir/sub/..", "/dir/./sub"]
+    plain = ["/dir", "/", "/dir/.hidden", "/dir/a.b", "/dir/sub"]
+    problems, n = [], 0
+    for word in aliases + plain:
+        normd = evaluate(sn, pb, env={sn_params[0]: Const(word)})
+        if not isinstance(normd, str):
+            continue
+        if word in aliases and normd in plain:
+            n += 1
+            continue  # normalised to the directory's own selector
+        verdict = evaluate(sec, hb, facts={"self.selector": Const(normd)})
+        if isinstance(verdict, tuple):
+            continue
+        n += 1
+        if word in aliases and verdict:
+            problems.append(f"the request {word!r} reaches the handlers as {normd!r} and passes the filter: the directory is listed under that name, every child "
+                            f"selector ({normd + '/x'!r}) is refused, and the empty listing is written to the cache file of the directory itself")
+        if word in plain and not verdict:
+            problems.append(f"the ordinary selector {word!r} is refused by the filter")
+    ok = n >= 8 and not problems
+    rep.add(rule, f"{sec.qualname}: other spellings of a directory are refused [{n} selectors evaluated]", ok, ctx.where(sec),
+            "; ".join(problems[:2]) if problems else ("" if ok else f"only {n} selectors could be evaluated"), key=f"{rule}|aliases")
+
+
 def freshness_obligations(ctx, rep, eff, C, lc, rule="R10a"):
     """The cache of directory handler class C is deserialised only while it is younger than the configured lifetime.
     -> (load call sites, walker that inlines the loader's helpers), or (None, None) when no load was found."""
@@ -283,47 +380,13 @@ def check(ctx, rep):
             key="R10c|protocol-save", nontrivial=False)
 
     # ------------------------------------------------------------------ R10e
-    ge = ctx.cls("gopherentry.GopherEntry")
-    if ge is None:
-        rep.fail("R10e", "GopherEntry", detail="entry class not found")
-    else:
-        for E in prog.subclasses(ge):
-            problems = []
-            hooks = [h for h in ("__getstate__", "__reduce__", "__reduce_ex__", "__getnewargs__", "__getnewargs_ex__", "__setstate__", "__slots__") if h in E.methods or h in E.attrs]
-            gs = E.methods.get("__getstate__")
-            for h in hooks:
-                if h in ("__reduce__", "__reduce_ex__", "__getnewargs__", "__getnewargs_ex__", "__slots__"):
-                    problems.append(f"{h} customises how entries are pickled: cannot show that a cached entry equals the generated one")
-            if gs is not None:
-                dropped = set()
-                ok_shape = False
-                for n in ast.walk(gs.node):
-                    if isinstance(n, (ast.DictComp, ast.ListComp, ast.GeneratorExp)) and any(g.ifs for g in n.generators):
-                        problems.append("__getstate__ filters the fields by value: a field that is set but falsy (size 0, port 0, empty name) is dropped from the cache and "
-                                        "comes back as 'unset', so the cached listing differs from the generated one")
-                    if isinstance(n, ast.Call) and isinstance(n.func, ast.Attribute) and n.func.attr == "pop" and n.args and isinstance(n.args[0], ast.Constant):
-                        dropped.add(n.args[0].value)
-                    if isinstance(n, ast.Delete):
-                        for t in n.targets:
-                            if isinstance(t, ast.Subscript) and isinstance(t.slice, ast.Constant):
-                                dropped.add(t.slice.value)
-                    if isinstance(n, ast.Attribute) and norm(n) == "self.__dict__":
-                        ok_shape = True
-                if not ok_shape:
-                    problems.append("__getstate__ does not start from the full self.__dict__")
-                # dropped fields must be restored on load
-                lc = prog.resolve_method(dirbase, "loadcache")
-                restorers = [E.methods.get("__setstate__"), lc]
-                for k in sorted(dropped):
-                    restored = any(r is not None and any((isinstance(x, ast.Call) and isinstance(x.func, ast.Attribute) and x.func.attr == f"set{k}") or
-                                                         (isinstance(x, ast.Attribute) and isinstance(x.ctx, ast.Store) and x.attr == k) for x in ast.walk(r.node))
-                                   for r in restorers)
-                    if not restored:
-                        problems.append(f"field '{k}' is left out of the cache and never restored after loading")
-            elif "__setstate__" in hooks:
-                problems.append("__setstate__ without __getstate__ rewrites loaded entries")
-            rep.add("R10e", f"{E.qualname}: cached by complete pickling", not problems, ctx.where(E.module, E.node), "; ".join(sorted(set(problems))),
-                    key=f"R10e|{E.qualname}", nontrivial=bool(hooks))
+    complete_pickling_obligations(ctx, rep, "R10e")
+
+    # ------------------------------------------------------------------ R10f
+    rep.rule("R10f", "one directory, one selector: the other spellings of a directory's path (`dir/.`, `dir/./`, `dir//`, `dir/x/..`) are refused by "
+             "the selector filter after the protocols' normalisation - a listing made under such a spelling finds every child refused and "
+             "would be stored, empty, in the directory's own cache file", floor=1)
+    alias_obligations(ctx, rep, "R10f")
 
     # ------------------------------------------------------------------ R10d
     dp = prog.resolve_method(dirbase, "prepare")
